@@ -24,23 +24,74 @@ theorem cell_numSet (d : Doc) (op : Spec.CmpOp) (a : F) (l : List Ref) :
     cmpM d op (.num a) (.nodes l) = .ok (Spec.compare d op (.num a) (.nodes l)) := by
   simp [cmpM, xtypeOf, Spec.compare, goParseFloat, bind, Except.bind, pure, Except.pure]
 
-/-- string vs string, `=` and `!=` -/
+/-! ### the cells with a string or two node-sets, all six operators
+
+After the repair of `cmpStringStringF` (the four relational operators compare
+`stringToNumber(a)` with `stringToNumber(b)` — they used to compare the strings byte-wise), of
+`cmpNodeSetString` (operands handed over in order — they used to be `(literal, node value)`) and
+of `cmpStringNumeric` (operands in order — they used to be `(number, string-as-number)`) every cell
+below is XPath's comparison for **all six** operators.  The `_eq` / `_ne` theorems further down are
+the former statements (restricted to `=` / `!=` only because of the old lexical/swapped behaviour),
+kept as corollaries. -/
+
+/-- string vs string, all six operators: `=`/`!=` on the strings, the relational operators on their
+numbers -/
+theorem cell_strStr (d : Doc) (op : Spec.CmpOp) (a b : String) :
+    cmpM (F := F) d op (.str a) (.str b) = .ok (Spec.compare (F := F) d op (.str a) (.str b)) := by
+  cases op <;> simp [cmpM, xtypeOf, Spec.compare, Spec.cmpAtom, Spec.CmpOp.isRel, Spec.toStr,
+    Spec.toNum, cmpStrF, goParseFloat, bind, Except.bind, pure, Except.pure, bne]
+
+/-- string vs number, all six operators: the string is converted with `number()`, the operands stay
+on their sides -/
+theorem cell_strNum (d : Doc) (op : Spec.CmpOp) (s : String) (b : F) :
+    cmpM d op (.str s) (.num b) = .ok (Spec.compare d op (.str s) (.num b)) := by
+  cases op <;> simp [cmpM, xtypeOf, Spec.compare, Spec.cmpAtom, Spec.CmpOp.isRel, Spec.toNum,
+    Spec.cmpNum, goParseFloat, bind, Except.bind, pure, Except.pure]
+
+/-- number vs string, all six operators -/
+theorem cell_numStr (d : Doc) (op : Spec.CmpOp) (a : F) (s : String) :
+    cmpM d op (.num a) (.str s) = .ok (Spec.compare d op (.num a) (.str s)) := by
+  cases op <;> simp [cmpM, xtypeOf, Spec.compare, Spec.cmpAtom, Spec.CmpOp.isRel, Spec.toNum,
+    Spec.cmpNum, goParseFloat, bind, Except.bind, pure, Except.pure]
+
+/-- node-set vs string, all six operators: true iff some node's string-value (for the relational
+operators: its number) compares with the string (its number), the node on the left -/
+theorem cell_setStr (d : Doc) (op : Spec.CmpOp) (l : List Ref) (s : String) :
+    cmpM (F := F) d op (.nodes l) (.str s) = .ok (Spec.compare (F := F) d op (.nodes l) (.str s)) := by
+  cases op <;> simp [cmpM, xtypeOf, Spec.compare, Spec.cmpAtom, Spec.CmpOp.isRel, Spec.toStr,
+    Spec.toNum, cmpStrF, goParseFloat, bind, Except.bind, pure, Except.pure, bne]
+
+/-- string vs node-set, all six operators -/
+theorem cell_strSet (d : Doc) (op : Spec.CmpOp) (s : String) (l : List Ref) :
+    cmpM (F := F) d op (.str s) (.nodes l) = .ok (Spec.compare (F := F) d op (.str s) (.nodes l)) := by
+  cases op <;> simp [cmpM, xtypeOf, Spec.compare, Spec.cmpAtom, Spec.CmpOp.isRel, Spec.toStr,
+    Spec.toNum, cmpStrF, goParseFloat, bind, Except.bind, pure, Except.pure, bne]
+
+/-- node-set vs node-set, all six operators: some pair of nodes whose string-values (`=`, `!=`) /
+whose numbers (`<`, `<=`, `>`, `>=`) compare -/
+theorem cell_setSet (d : Doc) (op : Spec.CmpOp) (la lb : List Ref) :
+    cmpM (F := F) d op (.nodes la) (.nodes lb) = .ok (Spec.compare (F := F) d op (.nodes la) (.nodes lb)) := by
+  cases op <;> simp [cmpM, xtypeOf, Spec.compare, Spec.CmpOp.isRel, cmpStrF, goParseFloat, bind,
+    Except.bind, pure, Except.pure]
+
+/-- string vs string, `=` (corollary of `cell_strStr`) -/
 theorem cell_strStr_eq (d : Doc) (a b : String) :
-    cmpM (F := F) d .eq (.str a) (.str b) = .ok (Spec.compare (F := F) d .eq (.str a) (.str b)) := by
-  simp [cmpM, xtypeOf, Spec.compare, Spec.cmpAtom, Spec.CmpOp.isRel, Spec.toStr, cmpStrF, bind, Except.bind, pure, Except.pure]
+    cmpM (F := F) d .eq (.str a) (.str b) = .ok (Spec.compare (F := F) d .eq (.str a) (.str b)) :=
+  cell_strStr d .eq a b
 
 theorem cell_strStr_ne (d : Doc) (a b : String) :
-    cmpM (F := F) d .ne (.str a) (.str b) = .ok (Spec.compare (F := F) d .ne (.str a) (.str b)) := by
-  simp [cmpM, xtypeOf, Spec.compare, Spec.cmpAtom, Spec.CmpOp.isRel, Spec.toStr, cmpStrF, bind, Except.bind, pure, Except.pure, bne]
+    cmpM (F := F) d .ne (.str a) (.str b) = .ok (Spec.compare (F := F) d .ne (.str a) (.str b)) :=
+  cell_strStr d .ne a b
 
-/-- node-set vs node-set, `=` : some pair of nodes has equal string-values -/
+/-- node-set vs node-set, `=` : some pair of nodes has equal string-values (corollary of
+`cell_setSet`) -/
 theorem cell_setSet_eq (d : Doc) (la lb : List Ref) :
-    cmpM (F := F) d .eq (.nodes la) (.nodes lb) = .ok (Spec.compare (F := F) d .eq (.nodes la) (.nodes lb)) := by
-  simp [cmpM, xtypeOf, Spec.compare, Spec.CmpOp.isRel, cmpStrF, bind, Except.bind, pure, Except.pure]
+    cmpM (F := F) d .eq (.nodes la) (.nodes lb) = .ok (Spec.compare (F := F) d .eq (.nodes la) (.nodes lb)) :=
+  cell_setSet d .eq la lb
 
 theorem cell_setSet_ne (d : Doc) (la lb : List Ref) :
-    cmpM (F := F) d .ne (.nodes la) (.nodes lb) = .ok (Spec.compare (F := F) d .ne (.nodes la) (.nodes lb)) := by
-  simp [cmpM, xtypeOf, Spec.compare, Spec.CmpOp.isRel, cmpStrF, bind, Except.bind, pure, Except.pure]
+    cmpM (F := F) d .ne (.nodes la) (.nodes lb) = .ok (Spec.compare (F := F) d .ne (.nodes la) (.nodes lb)) :=
+  cell_setSet d .ne la lb
 
 /-- truth conversion: NaN and zero are false (the pinned `asBool` made NaN true) -/
 theorem asBool_spec (v : Spec.Value F) :
